@@ -399,6 +399,70 @@ class Models(object):
         R('<Iter as Iterator>::any|<IntoIter as Iterator>::any', iter_any_all('any'))
         R('<Iter as Iterator>::all|<IntoIter as Iterator>::all', iter_any_all('all'))
 
+        def vec_swap_remove(ex, fr, c, a, st, pc):
+            v = rd(st, a[0])
+            idx = a[1]
+            bad = S.And(pc, S.Uge(idx, v.length))
+            if bad is not S.FALSE:
+                ex.panics.append((bad, 'swap_remove index out of bounds', fr.fn.name, -1))
+            last = S.Sub(v.length, b64(1))
+            e = select(v.cells, idx)
+            le = select(v.cells, last)
+            cells = list(v.cells)
+            for i in range(len(cells)):
+                if le is not UNDEF and cells[i] is not UNDEF:
+                    cells[i] = merge(S.Eq(idx, b64(i)), le, cells[i])
+            self.wr(st, a[0], VecV(cells, last))
+            return e, st, S.Ult(idx, v.length)
+        R('Vec::swap_remove', vec_swap_remove)
+
+        def vec_remove(ex, fr, c, a, st, pc):
+            v = rd(st, a[0])
+            idx = a[1]
+            if not S.is_const(idx):
+                raise Unsupported('Vec::remove with symbolic index')
+            i0 = S.cval(idx)
+            bad = S.And(pc, S.Uge(idx, v.length))
+            if bad is not S.FALSE:
+                ex.panics.append((bad, 'removal index out of bounds', fr.fn.name, -1))
+            e = v.cells[i0] if i0 < len(v.cells) else UNDEF
+            cells = list(v.cells[:i0]) + list(v.cells[i0 + 1:])
+            self.wr(st, a[0], VecV(cells, S.Sub(v.length, b64(1))))
+            return e, st, S.Ult(idx, v.length)
+        R('Vec::remove', vec_remove)
+        R('<IntoIter as Iterator>::filter|<Iter as Iterator>::filter', lambda ex, fr, c, a, st, pc: (('filteriter', a[0], a[1]), S.TRUE))
+
+        def filter_collect(ex, fr, c, a, st, pc):
+            from .exec import merge_states
+            it = a[0]
+            inner, cl = it[1], it[2]
+            if not (isinstance(inner, tuple) and inner[0] == 'veciter' and S.is_const(inner[2])):
+                raise Unsupported('filter over %r' % (inner[0] if isinstance(inner, tuple) else inner,))
+            _, vec, idx, mode = inner
+            n = len(vec.cells)
+            cells = [UNDEF] * n
+            cnt = b64(0)
+            for i in range(S.cval(idx), n):
+                e = vec.cells[i]
+                if e is UNDEF:
+                    continue
+                has = S.Ult(b64(i), vec.length)
+                if has is S.FALSE:
+                    continue
+                ref = RefV(ex.alloc(st, (RefV(ex.alloc(st, e, 'elem'), ()) if mode == 'ref' else e), 'farg'), ())
+                base = st
+                keep, st2, l2 = ex.call_closure(cl, [ref], st.copy() if has is not S.TRUE else st, S.And(pc, has))
+                if st2 is None:
+                    raise Unsupported('filter closure diverges')
+                st = merge_states([(has, st2), (S.Not(has), base)]) if has is not S.TRUE else st2
+                take = S.And(has, keep)
+                item = RefV(ex.alloc(st, e, 'elem'), ()) if mode == 'ref' else e
+                for k in range(n):
+                    cells[k] = merge(S.And(take, S.Eq(cnt, b64(k))), item, cells[k])
+                cnt = S.Ite(take, S.Add(cnt, b64(1)), cnt)
+            return VecV(cells, cnt), st, S.TRUE
+        R('<Filter as Iterator>::collect', filter_collect)
+
         def vec_pop(ex, fr, c, a, st, pc):
             v = rd(st, a[0])
             has = S.Not(S.Eq(v.length, b64(0)))
